@@ -87,7 +87,8 @@ Definition p_feed : list qinstr :=
     QSend 2                        (* 11 *);
     QRel (SG 2)                    (* 12 *);
     QJmp 8                         (* 13 *);
-    QExit                          (* 14 *) ].
+    QRel (SG 0)                    (* 14 *);
+    QJmp 0                         (* 15 *) ].
 
 Definition p_jq_put : list qinstr :=
   [ QAcq (SG 0) (FR 1) (FR 0) 7    (*  0 *);
